@@ -3,11 +3,11 @@ ENTRY = dict(
     rule="GetBoringGREASEValue on all 2^16 seed words at each of the 5 indices (plus out-of-range indices); isGREASEUint16 observed "
          "through ApplyPreset on all 2^16 cipher-suite values; 50*n draws each of GetGREASEVersion / GetGREASEID with crypto/rand.Reader "
          "replaced by a logging deterministic reader (the crypto/rand.Int result is recomputed from the consumed bytes and given to the "
-         "model) plus a scripted corpus (draw 1 = the F-04 witness, 0, 0x05050505, max-1, entropy failure); n/2 marshaled transport-parameter "
+         "model) plus a scripted corpus (draw 1 = the F-04 witness, 0, 0x05050505, max-1, entropy failure); n/4 marshaled transport-parameter "
          "lists with a GREASE parameter (override valid/invalid/unset) and a VersionInformation with 0..4 random available versions; every "
          "listed parrot: n connections through the ClientHelloID path with a recording Config.Rand (the unique 10-byte read = GREASE seed), "
-         "n/25 through UTLSIdToSpec+ApplyPreset and n/25 through a Fingerprinter copy of its wire hello (GREASE view of spec and of the parsed "
-         "wire hello compared with the model position by position); n/2 randomized ClientHelloIDs; 4n/25+n/4 runner-generated specs with "
+         "max(2,n/66) through UTLSIdToSpec+ApplyPreset and as many through a Fingerprinter copy of its wire hello (GREASE view of spec and of the parsed "
+         "wire hello compared with the model position by position); n/2 randomized ClientHelloIDs; 4*max(2,n/66)+n/4 runner-generated specs with "
          "GREASE (placeholder or user-set reserved value) at random positions of suites/groups/key_share/versions/sigalgs and 0..3 GREASE "
          "extensions; freshness: distinct values per slot over n connections per GREASE-carrying parrot, 3 fingerprinted copies and one "
          "fixed generated shape. Distinct by (hello, seed bytes, spec); non-trivial when the hello carries at least one GREASE value / the draw succeeded.",
